@@ -4,7 +4,11 @@ from .. import gen, core
 from ..real import hex6
 
 ID = "C10"
+STATEFUL = True     # some blocks keep a live object across lines
 LEAN_TARGETS = ["Cider.Props.C10", "Cider.Props.C10Tie"]
+# source-text tie (translated on every run by tools/pyexpr2lean.py); skipped when a function no longer fits the translator
+OPTIONAL_TARGETS = ["Cider.Props.C10Src"]
+OPTIONAL_THEOREMS = {"Cider.Props.C10Src": ['Cider.C10Src.shape_eq', 'Cider.C10Src.flanksNCPR_eq', 'Cider.C10Src.flanksFCR_eq', 'Cider.C10Src.flanksSigma_eq', 'Cider.C10Src.flanksHydro_eq', 'Cider.C10Src.flanksHydro2_eq', 'Cider.C10Src.flanksDensity_eq', 'Cider.C10Src.source_flanks']}
 P = "Cider.C10."
 THEOREMS = [P + t for t in (
     "flanks_eq", "profile_ok_iff", "profile_length", "profile_entry", "profile_flanks_zero", "window_guard",
@@ -40,6 +44,9 @@ def block(s, w, rng, comp=True):
 
 
 def cases(rng, tier):
+    # the property's own queries AFTER other public calls on the same object (same answers as on a fresh one)
+    for c in gen.after_calls_cases(rng, 16 if tier == "quick" else 120, ['linNCPR 3', 'linFCR 3', 'linSigma 4', 'linHydro 2', 'linComp 3 -']):
+        yield c
     n = 6 if tier == "quick" else 8
     for pat in gen.patterns_upto(n):
         s = gen.spell(pat, rng)
